@@ -5,7 +5,12 @@ Init == i \in 1..Len(Cases) /\ out = 0
 X == Cases[i][2]
 RECURSIVE BDaysFrom(_, _)
 BDaysFrom(d, n) == IF n = 0 THEN << >> ELSE << NextBDay(d) >> \o BDaysFrom(NextBDay(d) + 1, n - 1)
-Days == BDaysFrom(Cases[i][1], Len(X)) \o << >>
+\* an optional third component k > 0: the k-th business day of the run is a holiday (no observation), so that two curves
+\* can share first date, last date and length and still differ in an interior date
+Skip == IF Len(Cases[i]) >= 3 THEN Cases[i][3] ELSE 0
+Days == IF Skip = 0 THEN BDaysFrom(Cases[i][1], Len(X)) \o << >>
+        ELSE LET all == BDaysFrom(Cases[i][1], Len(X) + 1)
+             IN  [k \in 1..Len(X) |-> IF k < Skip THEN all[k] ELSE all[k + 1]] \o << >>
 AsSeq(kind) == LET agg == Aggregate(kind, X, Days)
                    RECURSIVE Lst(_)
                    Lst(S) == IF S = {} THEN << >> ELSE LET k == CHOOSE y \in S : TRUE IN << << k, agg[k] >> >> \o Lst(S \ {k})
